@@ -277,7 +277,11 @@ def run_world(rng, res, idx):
         compute = True
         if rng.random() < 0.2 and c % I == 0 and c > 0:
             compute = False
-        spec['history'] = [('train',)] * c + [('load', compute)] + [('train',)] * (T - c)
+        rollback = cfg['hook'] and cfg['acc'] == 1 and c > 0 and rng.random() < 0.35
+        if rollback:
+            compute = True
+            res.count('world_rollbacks_into_live_preconditioner')
+        spec['history'] = [('train',)] * c + [('rollback' if rollback else 'load', compute)] + [('train',)] * (T - c)
         run = scenario.run(spec, W, seed=seed + c, policy=simdist.POLICIES[(idx + c) % len(simdist.POLICIES)])
         if run.inconclusive:
             res.inconclusive.append('simulator watchdog fired')
